@@ -853,6 +853,72 @@ theorem layerGetConfigRaises_of_numpy (E : Env) (spec : LSpec) (L : Layer)
   have hp' := (List.mem_filter.mp hp).1
   simp [argGetConfigRaises_of_numpy E p.kind _ (h p hp')]
 
+/-! ### … and no raising at all when no class of the tables calls a numpy method on an argument
+      (the state of the tables since `quantized_bits.get_config` converts `post_training_scale`
+      with `np.asarray` first) -/
+
+theorem qGetConfigRaises_of_no_tolist (s : QSpec) (q : QObj) (h : s.tolist = []) :
+    qGetConfigRaises s q = false := by
+  unfold qGetConfigRaises
+  rw [h]
+  rfl
+
+theorem QVal.getConfigRaises_of_no_tolist (E : Env) (hE : ∀ s ∈ E.qspecs, s.tolist = []) (v : QVal) :
+    v.getConfigRaises E = false := by
+  cases v with
+  | none => rfl
+  | str _ => rfl
+  | obj q =>
+    simp only [QVal.getConfigRaises]
+    split
+    · rename_i s hs
+      unfold Env.findQ at hs
+      exact qGetConfigRaises_of_no_tolist s q (hE s (List.mem_of_find?_eq_some hs))
+    · rfl
+
+theorem argGetConfigRaises_of_no_tolist (E : Env) (hE : ∀ s ∈ E.qspecs, s.tolist = []) (k : Kind)
+    (a : Arg) : argGetConfigRaises E k a = false := by
+  cases k <;> cases a <;> try rfl
+  case quant.q t v => exact QVal.getConfigRaises_of_no_tolist E hE v
+  case act.act x =>
+    cases x <;> try rfl
+    case obj q => exact QVal.getConfigRaises_of_no_tolist E hE (.obj q)
+  case rawAct.act x =>
+    cases x <;> try rfl
+    case obj q => exact QVal.getConfigRaises_of_no_tolist E hE (.obj q)
+  case init.init qs c r i =>
+    cases i <;> try rfl
+    case qinit a b v => exact QVal.getConfigRaises_of_no_tolist E hE v
+
+theorem layerGetConfigRaises_of_no_tolist (E : Env) (hE : ∀ s ∈ E.qspecs, s.tolist = [])
+    (spec : LSpec) (L : Layer) : layerGetConfigRaises E spec L = false := by
+  unfold layerGetConfigRaises
+  rw [List.any_eq_false]
+  intro p _
+  simp [argGetConfigRaises_of_no_tolist E hE p.kind _]
+
+theorem Layer.getConfigRaises_of_no_tolist (E : Env) (hE : ∀ s ∈ E.qspecs, s.tolist = [])
+    (L : Layer) : L.getConfigRaises E = false := by
+  unfold Layer.getConfigRaises
+  split
+  · exact layerGetConfigRaises_of_no_tolist E hE _ L
+  · rfl
+
+theorem modelGetConfigRaises_of_no_tolist (E : Env) (hE : ∀ s ∈ E.qspecs, s.tolist = [])
+    (m : Model) : modelGetConfigRaises E m = false := by
+  unfold modelGetConfigRaises
+  rw [List.any_eq_false]
+  intro n _
+  cases hn : n.node with
+  | q l => simp [nodeGetConfigRaises, Layer.getConfigRaises_of_no_tolist E hE l]
+  | keras c cfg => simp [nodeGetConfigRaises]
+  | bidir kw f b =>
+    cases b with
+    | none => simp [nodeGetConfigRaises, Layer.getConfigRaises_of_no_tolist E hE f]
+    | some bl =>
+      simp [nodeGetConfigRaises, Layer.getConfigRaises_of_no_tolist E hE f,
+        Layer.getConfigRaises_of_no_tolist E hE bl]
+
 theorem rebuild_of_no_raise (E : Env) (m : Model) (h : modelGetConfigRaises E m = false) :
     rebuild E m = modelFromConfig E (modelGetConfig E m) := by
   unfold rebuild
